@@ -113,3 +113,5 @@ package blockchain
 //@   requires store != nil
 //@   nosafety
 //@   ensures [start-up-does-not-rewind-the-block-store] store.height == old(store.height)
+// (and fast sync asks for the first block the state has not applied, whatever the store height was at entry)
+//@   atcall NewBlockPool assert [sync-starts-right-above-the-state] arg_start == lastBlockHeight + 1
